@@ -6,6 +6,7 @@ import (
 	"fmt"
 	"go/constant"
 	"go/token"
+	"go/types"
 	"os"
 	"strings"
 
@@ -635,4 +636,103 @@ func init() {
 		}
 		dumpF6(c, fns)
 	})
+}
+
+// R8: a key set's batched counters are flushed together, and never discarded unflushed. logKeySetCounterPair holds every
+// batched counter of one metric key set (enumerated from the struct type). The reference flush, LogProcessCounterSet.
+// UpdateMetrics, flushes all of them; any other function that flushes one member of a pair must flush every member
+// (siblings must agree), and a function that removes pairs from keySetPairs (delete, clear, re-make) must contain such a
+// complete flush.
+func init() {
+	register("C19", "C19.R8", ruleC19R8)
+}
+
+func ruleC19R8(c *Ctx) {
+	pairObj := c.P.pkgByRel["base"].Types.Scope().Lookup("logKeySetCounterPair")
+	if pairObj == nil {
+		broken("C19.R8: type base.logKeySetCounterPair not found")
+	}
+	st, ok := pairObj.Type().Underlying().(*types.Struct)
+	if !ok {
+		broken("C19.R8: base.logKeySetCounterPair is not a struct")
+	}
+	var members []string
+	for i := 0; i < st.NumFields(); i++ {
+		members = append(members, st.Field(i).Name())
+	}
+	c.floor("C19.R8", "members of logKeySetCounterPair", len(members), 2)
+	const fPairs = "base.LogProcessCounterSet.keySetPairs"
+	nFlushers := 0
+	for _, fn := range c.P.universe {
+		if relPkg(fnPkgPath(fn)) != "base" {
+			continue
+		}
+		flushed := map[string]ssa.Instruction{}
+		wholeSet := false
+		for _, s := range callsIn(fn) {
+			f := s.Common().StaticCallee()
+			if f == nil || !(f.Name() == "UpdateMetrics" || f.Name() == "UpdateMetric") || len(s.Common().Args) == 0 {
+				continue
+			}
+			if isAnchor(f, aProcUpdate) {
+				wholeSet = true
+				continue
+			}
+			recv := s.Common().Args[0]
+			mentions(recv, func(v ssa.Value) bool {
+				switch x := v.(type) {
+				case *ssa.Field:
+					if typeName(x.X.Type()) == "base.logKeySetCounterPair" {
+						flushed[st.Field(x.Field).Name()] = s
+					}
+				case *ssa.FieldAddr:
+					if typeName(x.X.Type()) == "base.logKeySetCounterPair" {
+						flushed[st.Field(x.Field).Name()] = s
+					}
+				}
+				return false
+			})
+		}
+		removes := []ssa.Instruction{}
+		eachInstr(fn, func(in ssa.Instruction) {
+			switch x := in.(type) {
+			case *ssa.Call:
+				if (isBuiltin(x, "delete") || isBuiltin(x, "clear")) && fieldOf(x.Call.Args[0]) == fPairs {
+					removes = append(removes, in)
+				}
+			case *ssa.Store:
+				if fa, ok := strip(x.Addr).(*ssa.FieldAddr); ok && fieldName(fa.X.Type(), fa.Field) == fPairs {
+					if _, isAlloc := fa.X.(*ssa.Alloc); !isAlloc {
+						removes = append(removes, in) // the map is replaced outside a constructor
+					}
+				}
+			}
+		})
+		if len(flushed) == 0 && len(removes) == 0 {
+			continue
+		}
+		complete := wholeSet || len(flushed) == len(members)
+		var missing []string
+		for _, m := range members {
+			if flushed[m] == nil {
+				missing = append(missing, m)
+			}
+		}
+		if len(flushed) > 0 {
+			nFlushers++
+			var pos ssa.Instruction
+			for _, in := range flushed {
+				pos = in
+			}
+			c.check(complete, "C19.R8", fn, "a flush of a key set's counters covers every member of the pair", pos.Pos(),
+				fmt.Sprintf("all %d members (%v) are flushed", len(members), members),
+				fmt.Sprintf("the pair is flushed only in part: %v not flushed here although the reference flush (LogProcessCounterSet.UpdateMetrics) flushes every member — counts batched in the others are left behind", missing))
+		}
+		for _, r := range removes {
+			c.check(complete, "C19.R8", fn, "key sets are removed only after a complete flush", r.Pos(),
+				"the function flushes every member of the pairs it removes",
+				fmt.Sprintf("pairs are removed from keySetPairs without a complete flush (%v not flushed): the counts batched since the last tick are lost, the totals never balance again", missing))
+		}
+	}
+	c.floor("C19.R8", "functions flushing members of a key-set pair", nFlushers, 1)
 }
